@@ -6,6 +6,7 @@
 From Coq Require Import List ZArith Bool.
 From TD Require Export Lib.HexBytes.
 From TD Require Import Lib.GoSem Lib.RunLib Model.Obfs2.
+From TD Require Model.Codec Proof.Obfs2Listen Run.Check_C17.
 Import ListNotations.
 Open Scope Z_scope.
 
@@ -17,7 +18,9 @@ Inductive case :=
            (res consumed : Z) (header : list Z) (meta_p : list Z) (meta_dc : Z)
            (c2s_writes : list (list Z)) (c2s_wire : list Z) (srv_chunks : list (list Z * bool)) (srv_data : list Z)
            (s2c_writes : list (list Z)) (s2c_wire : list Z) (cli_chunks : list (list Z * bool)) (cli_data : list Z)
-| CAcceptErr (stream secret : list Z) (res : Z).
+| CAcceptErr (stream secret : list Z) (res : Z)
+(* TaggedCodec.ObfuscatedTag() of the implementation against the tag the listener theorems use *)
+| CTag (codec : Z) (tag : list Z).
 
 Definition ks_of (o : oracle) (key iv : list Z) (pos : Z) : Z :=
   if zlist_eqb key (o_ke o) && zlist_eqb iv (o_ive o) then nth (Z.to_nat pos) (o_kse o) 0
@@ -34,16 +37,18 @@ Definition ok (c : case) : bool :=
   | CSession rnd protocol dc secret o res consumed header mp mdc cw cwire schunks sdata sw swire cchunks cdata =>
     let ks := ks_of o in
     match client_handshake ks (sha_of o) (S (length rnd)) rnd protocol dc secret with
-    | Ok (hdr, k, rest) =>
+    | Ok (hdr, cep, rest) =>
       (res =? 0) && zlist_eqb hdr header && (consumed =? zlen rnd - zlen rest) &&
-      zlist_eqb (ek k) (o_ke o) && zlist_eqb (eiv k) (o_ive o) && zlist_eqb (dk k) (o_kd o) && zlist_eqb (div k) (o_ivd o) &&
+      zlist_eqb (s_key (enc cep)) (o_ke o) && zlist_eqb (s_iv (enc cep)) (o_ive o) &&
+      zlist_eqb (s_key (dec cep)) (o_kd o) && zlist_eqb (s_iv (dec cep)) (o_ivd o) &&
       match server_accept ks (sha_of o) (header ++ cwire) secret with
-      | Ok ((p, d), k', rest') =>
+      | Ok ((p, d), sep, rest') =>
         zlist_eqb p mp && (d =? mdc) && zlist_eqb rest' cwire &&
-        zlist_eqb (send_all ks (ek k) (eiv k) 64 cw) cwire &&
-        zlist_eqb (recv_all ks (ek k') (eiv k') 64 schunks) sdata &&
-        zlist_eqb (send_all ks (dk k') (div k') 0 sw) swire &&
-        zlist_eqb (recv_all ks (dk k) (div k) 0 cchunks) cdata
+        (* every stream state used below is the one the model's handshake / accept returned *)
+        zlist_eqb (send_on ks (enc cep) cw) cwire &&
+        zlist_eqb (recv_on ks (dec sep) schunks) sdata &&
+        zlist_eqb (send_on ks (enc sep) sw) swire &&
+        zlist_eqb (recv_on ks (dec cep) cchunks) cdata
       | _ => false
       end
     | Err e => (kind_of e =? res)
@@ -55,5 +60,6 @@ Definition ok (c : case) : bool :=
     | Err e => kind_of e =? res
     | Panic => res =? 9
     end
+  | CTag ci tag => zlist_eqb (Obfs2Listen.obf_tag (Check_C17.codec_of ci)) tag
   end.
 Definition mismatches (cs : list case) : list nat := mismatch_idx ok cs.
